@@ -297,7 +297,7 @@ def stats_list(solver):
 def impl_solve(prob, cfg, limit=None):
     """the real solve() generator; returns ('ok', sols, stats) or ('err', kind, None)"""
     try:
-        with guard(int(os.environ.get("NUCS_VERIF_CALL_TIMEOUT", "30"))):
+        with guard(int(os.environ.get("NUCS_VERIF_CALL_TIMEOUT", "15"))):
             s = cfg.solver(prob.build())
             sols = []
             for sol in s.solve():
@@ -315,7 +315,7 @@ def impl_solve(prob, cfg, limit=None):
 
 def impl_optimize(prob, cfg, v, minimize):
     try:
-        with guard(int(os.environ.get("NUCS_VERIF_CALL_TIMEOUT", "30"))):
+        with guard(int(os.environ.get("NUCS_VERIF_CALL_TIMEOUT", "15"))):
             s = cfg.solver(prob.build())
             best = s.minimize(v) if minimize else s.maximize(v)
             return "ok", None if best is None else [int(x) for x in best], stats_list(s)
